@@ -310,6 +310,40 @@ func (ts *TermStore) Eq(a, b *Term) *Term {
 			return ts.Not(a)
 		}
 	}
+	if a.IsConst() {
+		a, b = b, a
+	}
+	if b.IsConst() && a.S.K == SBV {
+		switch a.Op {
+		case OZeroExt:
+			iw := a.Args[0].S.W
+			if b.C>>uint(iw) != 0 {
+				return ts.False()
+			}
+			return ts.Eq(a.Args[0], ts.BVConst(iw, b.C))
+		case OSignExt:
+			iw := a.Args[0].S.W
+			if uint64(sext(b.C&mask(iw), iw))&mask(a.S.W) != b.C {
+				return ts.False()
+			}
+			return ts.Eq(a.Args[0], ts.BVConst(iw, b.C))
+		case OIte:
+			// ite(c, k1, k2) == k  with constant branches
+			if a.Args[1].IsConst() && a.Args[2].IsConst() {
+				t1, t2 := a.Args[1].C == b.C, a.Args[2].C == b.C
+				switch {
+				case t1 && t2:
+					return ts.True()
+				case t1:
+					return a.Args[0]
+				case t2:
+					return ts.Not(a.Args[0])
+				default:
+					return ts.False()
+				}
+			}
+		}
+	}
 	if a.ID > b.ID {
 		a, b = b, a
 	}
@@ -901,3 +935,96 @@ func body(t *Term) string {
 
 // popcount helper for intrinsics
 func popcount64(x uint64) int { return bits.OnesCount64(x) }
+
+// Subst rebuilds t with variables replaced by constants (bind: var term id -> constant term).
+func (ts *TermStore) Subst(t *Term, bind map[int]*Term, memo map[int]*Term) *Term {
+	if t.Op == OConst {
+		return t
+	}
+	if r, ok := memo[t.ID]; ok {
+		return r
+	}
+	var r *Term
+	if t.Op == OVar {
+		if c, ok := bind[t.ID]; ok {
+			r = c
+		} else {
+			r = t
+		}
+		memo[t.ID] = r
+		return r
+	}
+	changed := false
+	args := make([]*Term, len(t.Args))
+	for i, a := range t.Args {
+		args[i] = ts.Subst(a, bind, memo)
+		if args[i] != a {
+			changed = true
+		}
+	}
+	if !changed {
+		memo[t.ID] = t
+		return t
+	}
+	r = ts.rebuild(t, args)
+	memo[t.ID] = r
+	return r
+}
+
+func (ts *TermStore) rebuild(t *Term, a []*Term) *Term {
+	switch t.Op {
+	case ONot:
+		return ts.Not(a[0])
+	case OAnd:
+		return ts.And(a[0], a[1])
+	case OOr:
+		return ts.Or(a[0], a[1])
+	case OIte:
+		return ts.Ite(a[0], a[1], a[2])
+	case OEq:
+		return ts.Eq(a[0], a[1])
+	case OBvAdd, OBvSub, OBvMul, OBvUDiv, OBvSDiv, OBvURem, OBvSRem, OBvAnd, OBvOr, OBvXor, OBvShl, OBvLShr, OBvAShr:
+		return ts.BvBin(t.Op, a[0], a[1])
+	case OBvULt, OBvULe, OBvSLt, OBvSLe:
+		return ts.BvCmp(t.Op, a[0], a[1])
+	case OBvNot:
+		return ts.BvNot(a[0])
+	case OBvNeg:
+		return ts.BvNeg(a[0])
+	case OExtract:
+		return ts.Extract(t.A0, t.A1, a[0])
+	case OConcat:
+		return ts.Concat(a[0], a[1])
+	case OZeroExt:
+		return ts.ZeroExt(t.A0, a[0])
+	case OSignExt:
+		return ts.SignExt(t.A0, a[0])
+	case OFpAdd, OFpSub, OFpMul, OFpDiv, OFpMin, OFpMax:
+		return ts.FpBin(t.Op, a[0], a[1])
+	case OFpLt, OFpLe, OFpEq:
+		return ts.FpCmp(t.Op, a[0], a[1])
+	case OFpNeg, OFpAbs, OFpSqrt, OFpRound:
+		return ts.FpUn(t.Op, a[0], t.A0)
+	case OFpIsNaN:
+		return ts.FpIsNaN(a[0])
+	case OFpIsInf:
+		return ts.FpIsInf(a[0])
+	case OFpToFp:
+		return ts.FpToFp(a[0], t.S)
+	case OFpFromBV:
+		return ts.FpFromBits(a[0])
+	case OFpToBV:
+		return ts.FpToBits(a[0])
+	case OFpFromSInt:
+		return ts.FpFromInt(a[0], t.S, true)
+	case OFpFromUInt:
+		return ts.FpFromInt(a[0], t.S, false)
+	case OFpToSInt:
+		return ts.FpToInt(a[0], t.A0, true)
+	case OFpToUInt:
+		return ts.FpToInt(a[0], t.A0, false)
+	case OUF:
+		return ts.mk(OUF, t.S, 0, 0, 0, t.Name, a...)
+	}
+	panic("rebuild: unknown op")
+}
